@@ -46,7 +46,10 @@ def literal_set(rng, tier):
     for t in ("float32", "float64"):
         lits += [(t, x) for x in ("0", "1", "1.5", "-2.25", "3", "100.125", "-0.5", "16777217", "0.1", "123456789.123456789",
                                   "340282346638528859811704183484516925440", "340282356779733661637539395458142568448",
-                                  "9" * 40, "9" * 310, "-" + "9" * 40, "0x10", "0x1e5", "-0x1", "007", "1.0")]
+                                  "9" * 40, "9" * 310, "-" + "9" * 40, "0x10", "0x1e5", "-0x1", "007", "1.0",
+                                  "9223372036854775807", "9223372036854775808", "-9223372036854775808", "-9223372036854775809",
+                                  "18446744073709551615", "18446744073709551616", "-100000000000000000000", "602214076000000000000000",
+                                  "4294967296", "-2147483649", "-0", "-0.0")]
     return lits
 
 
@@ -232,6 +235,16 @@ def run(ctx):
            "cm2": ([("int64", "-9223372036854775808", -2**63)], ("c", "cpp"))}
     for k, (cs, langs) in wit.items():
         jobs.append((k, cs, langs))
+    # every accepted floating-point literal (not hexadecimal, no leading zero) through rustc: declared type and value
+    rflo = []
+    for t, l in dict.fromkeys(flo):
+        if leading_zero(l):
+            continue
+        try:
+            rflo.append((t, l, float(l)))
+        except ValueError:
+            pass
+    jobs.append(("rflo", rflo, ("rust",)))
     with ThreadPoolExecutor(max_workers=8) as ex:
         probes = dict(ex.map(lambda j: build(*j), jobs))
     nprobe = 0
@@ -250,6 +263,14 @@ def run(ctx):
                     if key not in vals:
                         continue
                     nprobe += 1
+                    if isinstance(v, float):
+                        import struct
+                        want = struct.unpack("f", struct.pack("f", v))[0] if t == "float32" else v
+                        got = float(vals[key])
+                        if not (got == want or (want != 0 and abs(got - want) <= abs(want) * 1e-6)):
+                            res["failures"].append({"property": prop, "type": t, "literal": l, "compiler": comp,
+                                                    "what": "constant %s = %s evaluates to %s with %s" % (t, l, vals[key], comp)})
+                        continue
                     if int(vals[key]) != v:
                         res["failures"].append({"property": prop, "type": t, "literal": l, "compiler": comp,
                                                 "what": "constant %s = %s evaluates to %s with %s" % (t, l, vals[key], comp)})
@@ -260,6 +281,7 @@ def run(ctx):
                                                 "what": "constant has type %s, declared %s" % (r[2].get("K%d" % i), t)})
 
     check_group("good", groups["good"], True)
+    check_group("rflo", rflo, True)
     check_group("javabad", groups["java_only_bad"], True)
     check_group("lz", groups["leading_zero"][:6], True)
     check_group("cmin", groups["c_signed_min"], True)
